@@ -291,10 +291,14 @@ def mtype_values(guards, subject_pat, universe, resolve=None):
 def _subject_set(e, subject_pat, universe):
     if not (isinstance(e, ast.Compare) and len(e.ops) == 1):
         return None
-    if match(subject_pat, e.left) is None:
-        return None
     op = e.ops[0]
     rhs = e.comparators[0]
+    if match(subject_pat, e.left) is None:
+        # mirrored spelling `CON == message.mtype`
+        if isinstance(op, (ast.Is, ast.Eq, ast.IsNot, ast.NotEq)) and match(subject_pat, rhs) is not None:
+            rhs = e.left
+        else:
+            return None
     def nm(x):
         c = chain(x)
         return c.split(".")[-1] if c else None
